@@ -12,7 +12,7 @@ pub fn def() -> PropDef {
         streams,
         run,
         floors,
-        rule: "random operation sequences checked step by step against a reference cursor (slice, position) and a reference Vec<u8>: reads of 1/2/4/8 octets return the next octets big-endian and advance exactly; skip(n) and subreader(n) (n <= remaining; zero, exact-fit and last-octet cases forced) cover exactly n; bytes(n) with n > remaining returns None without panicking and leaves the cursor where it was; write_bytes_at inside the data overwrites in place and never changes the length; outside (incl. offset+len overflow) it is refused by panic and the buffer is unchanged. Inputs live in exact-size heap blocks (Miri / ASan watch the unchecked reads and the raw copy). Distinct = distinct (data, operation sequence); non-trivial = sequence with at least 3 operations.",
+        rule: "random operation sequences checked step by step against a reference cursor (slice, position) and a reference Vec<u8>: reads of 1/2/4/8 octets return the next octets big-endian and advance exactly; skip(n) and subreader(n) (n <= remaining; zero, exact-fit and last-octet cases forced) cover exactly n; bytes(n) with n > remaining returns None without panicking and leaves the cursor where it was; write_bytes_at inside the data overwrites in place and never changes the length; outside (incl. offset+len overflow) it is refused by panic and the buffer is unchanged. Inputs live in exact-size heap blocks (Miri / ASan watch the unchecked reads and the raw copy). Distinct = distinct (data, operation sequence); non-trivial = sequence with at least 3 operations. Also: requests that would look in-range if truncated to 8/16/31/32/48/63 bits, buffers of 255..200000 octets with up to 150 operations, writer lengths just below every power of two up to 2^17.",
     }
 }
 
